@@ -69,16 +69,19 @@ def run_job(env, job):
         d.sym = sym
         fields = {b'Build-Depends': [], b'Build-Depends-Arch': [], b'Build-Depends-Indep': []}
         keys = list(fields)
-        # decoys first
-        fields[b'Build-Depends'].append(unknown + tuple(b' (>= 1)'))
-        fields[b'Build-Depends'].append(tuple(b'${misc:Depends}'))
+        # decoys first (variant 1 keeps Build-Depends free of them, so that field is absent unless it carries an edge)
+        dk = b'Build-Depends' if var != 1 else b'Build-Depends-Indep'
+        fields[dk].append(unknown + tuple(b' (>= 1)'))
+        fields[dk].append(tuple(b'${misc:Depends}'))
         others = [i for i in range(n) if i != j and (i, j) not in es]
         if others:
             o = others[0]
-            # a later alternative, and an alternative for another architecture only: neither creates an edge
+            # a later alternative, alternatives for other architectures only, a negated list that names the build
+            # architecture among others: none of them creates an edge
             fields[b'Build-Depends-Indep'].append(unknown + tuple(b' | ') + bins[o][0])
             fields[b'Build-Depends-Arch'].append(bins[o][1] + tuple(b' [i386] | ') + unknown)
-            fields[b'Build-Depends'].append(bins[o][0] + tuple(b' [!amd64]'))
+            fields[dk].append(bins[o][0] + tuple(b' [!amd64]'))
+            fields[b'Build-Depends-Arch'].append(bins[o][0] + tuple(b' [!i386 !amd64] | ') + unknown)
         for e_idx, (i, jj) in enumerate(es):
             if jj != j:
                 continue
